@@ -86,6 +86,7 @@ class Engine:
         self.feas_cache = {}
         self.stats = {"feas_checks": 0, "paths": 0}
         self.called = set()       # contracted callees used modularly (their contracts are dependencies)
+        self.key_sorts = {}       # heap key -> array sort, for keys that have been written on some path
         self.start_path([])
 
     # ------------------------------------------------------------ path state
@@ -511,6 +512,9 @@ class Engine:
 
     # loop write tracking -----------------------------------------------------
     def note_write(self, key, ref_t):
+        arr = self.heap.get(key)
+        if arr is not None and z3.is_expr(arr) and key not in self.key_sorts:
+            self.key_sorts[key] = arr.sort()       # remembered across paths (loop-head havoc of not-yet-touched arrays)
         for rec in getattr(self, "_wrec", ()):
             rec.add((key, ref_t))
 
@@ -723,6 +727,9 @@ class Engine:
             return _B.list_repeat(self, a, b)
         if isinstance(op, ast.Mod) and ka == "str":
             return Opaque_("str%")
+        if isinstance(op, ast.Add) and (isinstance(a, Opaque_) or isinstance(b, Opaque_)) and \
+                (ka == "str" or isinstance(a, Opaque_)) and (kb == "str" or isinstance(b, Opaque_)):
+            return Opaque_("str+")      # log / message text being assembled: carried but never inspected
         if isinstance(op, ast.Mult) and ((ka == "str" and kb == "int") or (ka == "int" and kb == "str")):
             if not isinstance(a, Sym) and not isinstance(b, Sym):
                 return a * b
